@@ -271,12 +271,13 @@ func (s *Schema) collectUserTypes() {
 		return
 	}
 
-	s.usedUserTypes = collectUserTypes(node)
+	s.usedUserTypes = collectUserTypes(node, s.inner.TypesList())
 }
 
-func collectUserTypes(node internalSchema.Node) []string {
+func collectUserTypes(node internalSchema.Node, types map[string]internalSchema.Type) []string {
 	c := &userTypesCollector{
 		alreadyProcessed: map[string]struct{}{},
+		types:            types,
 	}
 	c.collect(node)
 	return c.userTypes
@@ -285,6 +286,10 @@ func collectUserTypes(node internalSchema.Node) []string {
 type userTypesCollector struct {
 	alreadyProcessed map[string]struct{}
 	userTypes        []string
+
+	// types the types known to the schema: the unnamed ones (the rule sets of
+	// an "or" rule) are looked into, they are part of the schema's own text.
+	types map[string]internalSchema.Type
 }
 
 func (c *userTypesCollector) collect(node internalSchema.Node) {
@@ -326,6 +331,14 @@ func (c *userTypesCollector) collectUserTypesFromTypesListConstraint(node intern
 	for _, name := range list.Names() {
 		if strings.HasPrefix(name, "@") {
 			c.addType(name)
+			continue
+		}
+		// A rule set such as {type: "@x", nullable: true}.
+		if _, done := c.alreadyProcessed[name]; !done && strings.HasPrefix(name, "#") {
+			c.alreadyProcessed[name] = struct{}{}
+			if t, ok := c.types[name]; ok && t.Schema().RootNode() != nil {
+				c.collect(t.Schema().RootNode())
+			}
 		}
 	}
 }
